@@ -385,6 +385,9 @@ def named_skips(rep, tier, seed):
         attr = NAMED_ATTR % pos
         body = tmpl % {"A": attr.replace("\n", "\n")}
         decls = {"crate": "#![rustfmt::skip::attributes(custom)]\n" + body,
+                 # several declarations of one kind on one node: the names of ALL of them count
+                 "crate_second_of_two": "#![rustfmt::skip::attributes(other_name)]\n#![rustfmt::skip::attributes(custom)]\n" + body,
+                 "enclosing_mod_second_of_two": "#[rustfmt::skip::attributes(other_name)]\n#[rustfmt::skip::attributes(custom)]\nmod outer {\n" + body + "}\n",
                  "enclosing_mod": "#[rustfmt::skip::attributes(custom)]\nmod outer {\n" + body + "}\n"}
         if pos in ("stmt", "closure_stmt", "block_stmt", "match_arm_block"):
             decls["enclosing_fn"] = body.replace("fn caller() {", "#[rustfmt::skip::attributes(custom)]\nfn caller() {", 1)
@@ -398,6 +401,7 @@ def named_skips(rep, tier, seed):
         mac = NAMED_MAC % pos
         body = tmpl % {"M": mac}
         decls = {"crate": ("#![rustfmt::skip::macros(custom_mac)]\n" + body, []),
+                 "crate_second_of_two": ("#![rustfmt::skip::macros(other_mac)]\n#![rustfmt::skip::macros(custom_mac)]\n" + body, []),
                  "enclosing_mod": ("#[rustfmt::skip::macros(custom_mac)]\nmod outer {\n" + body + "}\n", []),
                  "config_name": (body, [["skip_macro_invocations", "[\"custom_mac\"]"]]), "config_star": (body, [["skip_macro_invocations", "[\"*\"]"]])}
         if pos not in ("item",):
@@ -488,13 +492,23 @@ def whole_file(rep):
         "mod_generated_between_items": ("fn first() {}\n// @generated\n" + ugly, ["--config", "format_generated_files=false"], None),
         "mod_ignore": (ugly, [], 'ignore = ["child.rs"]\n'),
         "mod_decl_skip": (ugly, [], None),
+        "mod_decl_skip_in_module_file": (ugly, [], None),
+        "mod_decl_skip_in_cfg_if": (ugly, [], None),
     }
     for name, (text, args, toml) in mcases.items():
         sub = os.path.join(d, name)
         os.makedirs(sub)
         decl = "#[rustfmt::skip]\nmod child;\n" if name == "mod_decl_skip" else "mod child;\n"
-        open(os.path.join(sub, "lib.rs"), "w").write(decl + "fn root() {}\n")
         f = os.path.join(sub, "child.rs")
+        if name == "mod_decl_skip_in_module_file":
+            # the skip-marked declaration stands in a file that is itself an out-of-line module
+            decl = "mod holder;\n"
+            os.makedirs(os.path.join(sub, "holder"))
+            open(os.path.join(sub, "holder.rs"), "w").write("#[rustfmt::skip]\nmod child;\npub fn h() {}\n")
+            f = os.path.join(sub, "holder", "child.rs")
+        elif name == "mod_decl_skip_in_cfg_if":
+            decl = "cfg_if! {\n    if #[cfg(unix)] {\n        #[rustfmt::skip]\n        mod child;\n    }\n}\n"
+        open(os.path.join(sub, "lib.rs"), "w").write(decl + "fn root() {}\n")
         open(f, "w").write(text)
         if toml:
             open(os.path.join(sub, "rustfmt.toml"), "w").write(toml)
